@@ -704,6 +704,9 @@ impl Ctx {
 pub fn instant_of(off: i64) -> DateTime<Utc> {
     let ymd = |y, m, d, hh, mm, ss| Utc.with_ymd_and_hms(y, m, d, hh, mm, ss).unwrap();
     match off {
+        // a year before year 0: no notation of the document format can carry it, so such a layout is rejected either
+        // as unreadable or as expired - never accepted
+        -2_110_000_000 => ymd(-1, 3, 1, 0, 0, 0),
         -2_100_000_000 => ymd(1, 1, 2, 0, 0, 0),
         -2_090_000_000 => ymd(1000, 6, 15, 12, 0, 0),
         -2_080_000_000 => ymd(1500, 1, 1, 0, 0, 0),
